@@ -34,6 +34,7 @@ SEMANTIC = (
     "loop invariant not satisfied",
     "failed this",
     "constructed value may fail to meet its declared type invariant",
+    "which evaluates to false",      # assert(..) by(compute) over constants: the computed fact is false
 )
 UNDECIDED = ("Resource limit", "rlimit", "timed out", "timeout")
 
@@ -191,6 +192,8 @@ def run_unit(unit, seed=None, rlimit=None, canary_for=None, extra_tag="", num_th
         elif is_sem and fn is not None:
             entry["kind"] = "semantic"
             kind = msg.replace("possible ", "").replace(" not satisfied", "").replace(" ", "-")
+            if "which evaluates to false" in msg:
+                kind = "compute-assertion-false"
             entry["obligation"] = f"{unit}::{fn}::{kind}@{origin}"
             if res.functions[fn]["status"] != "undecided":
                 res.functions[fn]["status"] = "failed"
@@ -198,7 +201,13 @@ def run_unit(unit, seed=None, rlimit=None, canary_for=None, extra_tag="", num_th
             entry["kind"] = "tool"
             res.tool_errors.append(f"{msg} @ {origin or gen_line}")
         res.failures.append(entry)
-    if vr.get("encountered-vir-error") or (summary and "verified" not in vr):
+    compute_false = [e for e in res.failures if e.get("kind") == "semantic" and "compute-assertion-false" in e.get("obligation", "")]
+    if (vr.get("encountered-vir-error") or (summary and "verified" not in vr)) and compute_false and not res.tool_errors:
+        # an `assert(..) by(compute)` over constants evaluated to FALSE: Verus stops there (nothing else is checked in this run),
+        # but the diagnostic itself is a definite refutation of a named obligation, not a tool problem
+        res.status = "failed"
+        res.aborted_after_compute = True
+    elif vr.get("encountered-vir-error") or (summary and "verified" not in vr):
         res.status = "toolerror"
         if not res.tool_errors:
             res.tool_errors.append("verus reported a front-end error: " + p.stderr[-1500:])
